@@ -209,6 +209,8 @@ class Script:
             if op["bit"] // 8 < len(buf):
                 buf[op["bit"] // 8] ^= 1 << (op["bit"] % 8)
                 self._add(f"F {op['arena']} {op['bit']}", op_no)
+        elif k == "observe" and op["arena"] in getattr(self, "untracked", set()):
+            self._add(f"O {op['struct']} {self._params(op['params'])} {op['arena']} {op['off']} {op['len']}", op_no)
         elif k == "observe":
             pairs = M.observe_both(lambda fold: self.env(op["struct"], op["params"], op["arena"], op["off"], op["len"], fold))
             n = self._add(f"O {op['struct']} {self._params(op['params'])} {op['arena']} {op['off']} {op['len']}", op_no)
@@ -219,10 +221,16 @@ class Script:
             self.expect[n] = {"kind": "null", "op_no": op_no}
         elif k == "write":
             env = self.env(op["struct"], op["params"], op["arena"], op["off"], op["len"])
-            cw, tw = model_write(env, op["path"], op["value"])
+            if op["arena"] in getattr(self, "untracked", set()):
+                cw, tw, facts = None, None, {}
+            else:
+                cw, tw, facts = model_write(env, op["path"], op["value"])
+            if cw is None:
+                # the documents do not decide this write: the model no longer knows the arena's bytes
+                self.untracked = getattr(self, "untracked", set()) | {op["arena"]}
             n = self._add(f"W {op['struct']} {self._params(op['params'])} {op['arena']} {op['off']} {op['len']} {op['path']} {op['value']}", op_no)
             self.expect[n] = {"kind": "write", "could": cw, "tried": tw, "bytes": bytes(self.arenas[op["arena"]]).hex(),
-                              "op_no": op_no, "path": op["path"], "value": op["value"]}
+                              "op_no": op_no, "path": op["path"], "value": op["value"], "facts": facts}
         elif k in ("copy", "equals"):
             n = self._add(f"{'C' if k == 'copy' else 'E'} {op['struct']} {self._params(op['params'])} {op['arena']} {op['off']} {op['len']} "
                           f"{op['src']} {op['soff']} {op['slen']}", op_no)
@@ -237,7 +245,8 @@ class Script:
                 self.expect[n] = {"kind": "equals", "value": model2.equals_str(denv, senv), "op_no": op_no}
         elif k == "bytes":
             n = self._add(f"B {op['arena']}", op_no)
-            self.expect[n] = {"kind": "bytes", "bytes": bytes(self.arenas[op["arena"]]).hex(), "op_no": op_no}
+            if op["arena"] not in getattr(self, "untracked", set()):
+                self.expect[n] = {"kind": "bytes", "bytes": bytes(self.arenas[op["arena"]]).hex(), "op_no": op_no}
         else:
             from worldb import model2
             model2.add_text_op(self, op, op_no)
@@ -258,21 +267,34 @@ def _split_path(path):
     return out
 
 
+ABSENT = "absent"
+UNDECIDED = "undecided"
+
+
 def resolve_path(env, path):
-    """Returns (env, name, index) of the scalar a write path denotes, or None if it does not exist."""
+    """Returns (env, name, index) of the scalar a write path denotes; ABSENT when the path names an
+    element that does not exist (the driver then performs no call); UNDECIDED inside the region of a
+    recorded finding (array whose declared extent exceeds the bytes present)."""
     parts = _split_path(path)
     for name, idx in parts[:-1]:
         if idx is not None:
-            info = env.array_info(name) if env.has(name) is True else None
             count = _real_count(env, name)
+            if count is not None and count > 0 and not env.array_extent_present(name):
+                return UNDECIDED
             if count is None or idx >= count:
-                return None
+                return ABSENT
             env = env.sub_env(name, idx)
         else:
             env = env.sub_env(name)
         if env is None:
-            return None
+            return ABSENT
     name, idx = parts[-1]
+    if idx is not None:
+        count = _real_count(env, name)
+        if count is not None and count > 0 and not env.array_extent_present(name):
+            return UNDECIDED
+        if count is None or idx >= count:
+            return ABSENT
     return env, name, idx
 
 
@@ -285,22 +307,58 @@ def _real_count(env, name):
 
 
 def model_write(env, path, value):
-    """(could, tried) as '0'/'1'/None (None = unspecified by the documents)."""
+    """(could, tried, facts): '0'/'1', or None where the documents do not decide."""
     r = resolve_path(env, path)
-    if r is None:
-        return None, None
+    if r == UNDECIDED:
+        return None, None, {}
+    if r == ABSENT:
+        return "-", "-", {"via": "absent_element"}
     e, name, idx = r
-    if idx is not None:
-        return None, None  # element writes of scalar arrays: handled by model2 when enabled
     f, _c = e.lookup(name)
     v = int(value)
-    if not f.is_virtual and f.type.kind == "Flag":
-        v = bool(v)
+    nested = "." in path or "[" in path
+    if idx is not None:
+        t = f.type
+        if not isinstance(t, D.ArrayT) or not isinstance(t.elem, D.Scalar):
+            return None, None, {}
+        facts = {"scalar": t.elem.kind, "via": "element", "bits": t.elem_bits}
+        et = D.Scalar(t.elem.kind, t.elem_bits, t.elem.enum)
+        if et.kind == "Flag":
+            v = bool(v)
+        cw = M.representable(et, v, e.m)
+        if cw:
+            from worldb import model2
+            model2._write_elem(e, name, idx, v)
+        return ("1" if cw else "0"), ("1" if cw else "0"), facts
+    if f.is_virtual:
+        tgt = getattr(f, "writable", None)
+        facts = {"scalar": "virtual", "via": tgt[1] if tgt else "read_only"}
+        if tgt:
+            # the C++ parameter type of the virtual field's write methods (int32/uint32/int64/uint64
+            # by the range of the expression): an argument outside it is narrowed by the call itself
+            tf, _tc = e.lookup(tgt[0])
+            lo, hi = M.scalar_range(tf.type, e.m)
+            c = tgt[2]
+            lo, hi = {"alias": (lo, hi), "plus": (lo + c, hi + c), "minus": (lo - c, hi - c), "rminus": (c - hi, c - lo)}[tgt[1]]
+            window = None
+            for size in (32, 64):
+                if lo >= -(1 << (size - 1)) and hi <= (1 << (size - 1)) - 1:
+                    window = (-(1 << (size - 1)), (1 << (size - 1)) - 1)
+                    break
+                if lo >= 0 and hi <= (1 << size) - 1:
+                    window = (0, (1 << size) - 1)
+                    break
+            facts["value_outside_cpp_type_of_virtual"] = bool(window and not (window[0] <= v <= window[1]))
+    else:
+        facts = {"scalar": f.type.kind, "via": "nested" if nested else "direct", "bits": f.type.bits,
+                 "requires": f.requires is not None, "value_outside_field_type": not M.representable(f.type, v, e.m) if f.type.kind != "Flag" else False}
+        if f.type.kind == "Flag":
+            v = bool(v)
     cw = M.could_write(e, name, v)
     if cw is None:
-        return None, None
+        return None, None, facts
     tw = M.try_write(e, name, v)
-    return ("1" if cw else "0"), ("1" if tw else "0")
+    return ("1" if cw else "0"), ("1" if tw else "0"), facts
 
 
 # ---------------------------------------------------------------------------
@@ -366,6 +424,8 @@ def scenario_stream(rng, module, cfg):
 def write_values(rng, module, env, path):
     """Candidate values at and just outside every boundary of the field and of the C++ type."""
     r = resolve_path(env, path)
+    if r in (ABSENT, UNDECIDED):
+        r = None
     vals = [0, 1, -1, 2, 255, 256, 65535, 65536, (1 << 31) - 1, 1 << 31, (1 << 32) - 1, 1 << 32,
             (1 << 63) - 1, 1 << 63, (1 << 64) - 1, -(1 << 31), -(1 << 31) - 1, -(1 << 63), 9, 10, 99, 100]
     if r is not None and r[2] is None:
@@ -388,4 +448,21 @@ def write_values(rng, module, env, path):
             for x in (lo, lo - 1, hi, hi + 1):
                 vals += [x if tgt[1] == "alias" else x + c if tgt[1] == "plus" else x - c if tgt[1] == "minus" else c - x]
     vals = [v for v in vals if -(1 << 63) <= v < (1 << 64)]
-    return vals
+    # An enum argument is converted to the enum's C++ type by the *caller*: values outside that
+    # type would be narrowed before emboss sees them, so they are not part of the experiment.
+    et = None
+    if r is not None:
+        e, name, idx = r
+        f, _c = e.lookup(name)
+        t = f.type if not f.is_virtual else None
+        if isinstance(t, D.ArrayT):
+            t = t.elem
+        if isinstance(t, D.Scalar) and t.kind == "Enum":
+            et = module.enum(t.enum)
+    else:
+        et = None
+    if et is not None:
+        w = 8 if et.max_bits <= 8 else 16 if et.max_bits <= 16 else 32 if et.max_bits <= 32 else 64
+        lo, hi = (-(1 << (w - 1)), (1 << (w - 1)) - 1) if et.signed else (0, (1 << w) - 1)
+        vals = [v for v in vals if lo <= v <= hi]
+    return vals or [0]
